@@ -396,6 +396,158 @@ theorem lb_spec (L : Lawful I) (f : T → Bool) (g : A → Bool) (hf : ∀ x, f 
         rw [hmx] at j5 ⊢; exact j5
       exact LogOK_right I _ _ _ _ _ m _ _ (by rw [hlen, hsz]; omega) (by omega) (by omega) j5'
 
+/-- The part of `lb_spec` that needs no assumption on the predicate at all: the pushes are harmless, every probe is
+    the carry merged with a range `[l, k]`, and a search that answers `none` has folded the whole range. -/
+theorem lb_log (L : Lawful I) (f : T → Bool)
+    (t : Tree T) (item : T) (l vl vr : Nat) (hwf : WF I t) (hs : Shaped t vl vr) (h1 : vl ≤ l) (h2 : l ≤ vr) :
+    den I (lb I t item f l vl vr).tree = den I t ∧ WF I (lb I t item f l vl vr).tree ∧
+    Shaped (lb I t item f l vl vr).tree vl vr ∧
+    LogOK I (den I t) (I.val item) l vl vr (lb I t item f l vl vr).log ∧
+    ((lb I t item f l vl vr).res = none →
+      I.val (lb I t item f l vl vr).carry = (slice (den I t) (l - vl) (vr + 1 - vl)).foldl I.op (I.val item)) := by
+  induction t, item, l, vl, vr using lb.induct I f with
+  | case1 item l vl vr v next hfn =>
+    have hpn := probe_node I L (.leaf v) item vl vr hwf hs
+    simp only [Shaped] at hs; subst hs
+    have : l = vl := by omega
+    subst this
+    rw [lb, if_pos hfn]
+    refine ⟨rfl, trivial, rfl, ?_, fun h => by cases h⟩
+    intro kp hk
+    simp only [List.mem_singleton] at hk; subst hk
+    exact ⟨Nat.le_refl _, Nat.le_refl _, hpn⟩
+  | case2 item l vl vr v next hfn =>
+    have hpn := probe_node I L (.leaf v) item vl vr hwf hs
+    simp only [Shaped] at hs; subst hs
+    have : l = vl := by omega
+    subst this
+    rw [lb, if_neg hfn]
+    refine ⟨rfl, trivial, rfl, ?_, fun _ => hpn⟩
+    intro kp hk
+    simp only [List.mem_singleton] at hk; subst hk
+    exact ⟨Nat.le_refl _, Nat.le_refl _, hpn⟩
+  | case3 item l vl vr v lt rt hc =>
+    have hpn := probe_node I L (.node v lt rt) item vl vr hwf hs
+    obtain ⟨rfl, hfn⟩ := hc
+    rw [lb, if_pos ⟨rfl, hfn⟩]
+    refine ⟨rfl, hwf, hs, ?_, fun _ => hpn⟩
+    intro kp hk
+    simp only [List.mem_singleton] at hk; subst hk
+    exact ⟨(Shaped_size _ _ _ hs).2, Nat.le_refl _, hpn⟩
+  | case4 item l vl vr v lt rt hc p lt' m hlm q i hqi ih =>
+    have hpn := probe_node I L (.node v lt rt) item vl vr hwf hs
+    have hvlr := (Shaped_size _ _ _ hs).2
+    obtain ⟨hs1, hs2, hs3⟩ := hs
+    have hwl := (WF_pushed I L v lt rt hwf).1
+    have hwr := (WF_pushed I L v lt rt hwf).2
+    have hsl : Shaped lt' vl m := (Shaped_setRoot _ _ _ _).2 hs2
+    have hd := den_pushed I L v lt rt
+    have hsz := (Shaped_size _ _ _ hsl).1
+    have hlen := den_length I lt'
+    obtain ⟨i2, i3, i4, i5, _⟩ := ih hwl hsl h1 hlm
+    obtain ⟨w1, w2⟩ := WF_rebuild I v p.1 lt rt q.tree (rt.setRoot p.2.2) hwf
+      (L.push_val0 _ _ _) (L.push_pa0 _ _ _) (by rw [i2]; exact hd) i3 hwr
+    have hqi' : (lb I (lt.setRoot (I.push v lt.root rt.root).2.1) item f l vl ((vl + vr) / 2)).res = some i := hqi
+    have e : lb I (.node v lt rt) item f l vl vr =
+        ⟨q.carry, some i, .node p.1 q.tree (rt.setRoot p.2.2),
+         (if l = vl then [(vr, I.merge item v)] else []) ++ q.log⟩ := by
+      rw [lb, if_neg hc, if_pos hlm]; simp only [hqi']; rfl
+    rw [e]
+    refine ⟨w2, w1, ⟨hs1, i4, (Shaped_setRoot _ _ _ _).2 hs3⟩, ?_, fun h => by cases h⟩
+    rw [LogOK_append]
+    refine ⟨?_, ?_⟩
+    · by_cases hlv : l = vl
+      · subst hlv
+        rw [if_pos rfl]
+        intro kp hk
+        simp only [List.mem_singleton] at hk; subst hk
+        exact ⟨hvlr, Nat.le_refl _, hpn⟩
+      · rw [if_neg hlv]; exact LogOK_nil I _ _ _ _ _
+    · rw [hd]
+      exact LogOK_left I _ _ _ _ _ m _ _ (by rw [hlen, hsz]; omega) (by omega) i5
+  | case5 item l vl vr v lt rt hc p lt' rt' m hlm q hqn ih _ ih2 =>
+    have hpn := probe_node I L (.node v lt rt) item vl vr hwf hs
+    have hvlr := (Shaped_size _ _ _ hs).2
+    obtain ⟨hs1, hs2, hs3⟩ := hs
+    have hwl := (WF_pushed I L v lt rt hwf).1
+    have hwr := (WF_pushed I L v lt rt hwf).2
+    have hsl : Shaped lt' vl m := (Shaped_setRoot _ _ _ _).2 hs2
+    have hsr : Shaped rt' (m+1) vr := (Shaped_setRoot _ _ _ _).2 hs3
+    have hd := den_pushed I L v lt rt
+    have hsz := (Shaped_size _ _ _ hsl).1
+    have hlen := den_length I lt'
+    obtain ⟨i2, i3, i4, i5, i6⟩ := ih hwl hsl h1 hlm
+    have hmx : max l (m + 1) = m + 1 := by omega
+    have hcarry : I.val q.carry = (slice (den I lt') (l - vl) (m + 1 - vl)).foldl I.op (I.val item) := i6 hqn
+    obtain ⟨j2, j3, j4, j5, j6⟩ := ih2 hwr hsr (by omega) (by omega)
+    obtain ⟨w1, w2⟩ := WF_rebuild I v p.1 lt rt q.tree (lb I rt' q.carry f (max l (m+1)) (m+1) vr).tree hwf
+      (L.push_val0 _ _ _) (L.push_pa0 _ _ _) (by rw [i2, j2]; exact hd) i3 j3
+    have hqn' : (lb I (lt.setRoot (I.push v lt.root rt.root).2.1) item f l vl ((vl + vr) / 2)).res = none := hqn
+    have e : lb I (.node v lt rt) item f l vl vr =
+        ⟨(lb I rt' q.carry f (max l (m+1)) (m+1) vr).carry, (lb I rt' q.carry f (max l (m+1)) (m+1) vr).res,
+         .node p.1 q.tree (lb I rt' q.carry f (max l (m+1)) (m+1) vr).tree,
+         (if l = vl then [(vr, I.merge item v)] else []) ++ (q.log ++ (lb I rt' q.carry f (max l (m+1)) (m+1) vr).log)⟩ := by
+      rw [lb, if_neg hc, if_pos hlm]; simp only [hqn']; rfl
+    rw [e]
+    refine ⟨w2, w1, ⟨hs1, i4, j4⟩, ?_, ?_⟩
+    · rw [LogOK_append, LogOK_append]
+      refine ⟨?_, ?_, ?_⟩
+      · by_cases hlv : l = vl
+        · subst hlv
+          rw [if_pos rfl]
+          intro kp hk
+          simp only [List.mem_singleton] at hk; subst hk
+          exact ⟨hvlr, Nat.le_refl _, hpn⟩
+        · rw [if_neg hlv]; exact LogOK_nil I _ _ _ _ _
+      · rw [hd]
+        exact LogOK_left I _ _ _ _ _ m _ _ (by rw [hlen, hsz]; omega) (by omega) i5
+      · rw [hd]
+        have j5' : LogOK I (den I rt') (I.val q.carry) (m + 1) (m + 1) vr
+            (lb I rt' q.carry f (max l (m+1)) (m+1) vr).log := by
+          rw [hmx] at j5 ⊢; exact j5
+        exact LogOK_right_carry I _ _ _ _ _ _ m _ _ (by rw [hlen, hsz]; omega) h1 hlm hcarry j5'
+    · intro hn
+      have j6' := j6 hn
+      have ea : vr + 1 - vl - (den I lt').length = vr + 1 - (m + 1) := by rw [hlen, hsz]; omega
+      have eb : slice (den I lt') (l - vl) (den I lt').length = slice (den I lt') (l - vl) (m + 1 - vl) := by
+        rw [hlen, hsz]; congr 1; omega
+      rw [hd, slice_append_mid (den I lt') (den I rt') (l - vl) (vr + 1 - vl) (by rw [hlen, hsz]; omega)
+        (by rw [hlen, hsz]; omega), List.foldl_append, ea, eb, ← hcarry]
+      exact j6'.trans (by rw [hmx, Nat.sub_self])
+  | case6 item l vl vr v lt rt hc p rt' m hlm ih =>
+    have hvlr := (Shaped_size _ _ _ hs).2
+    obtain ⟨hs1, hs2, hs3⟩ := hs
+    have hwl := (WF_pushed I L v lt rt hwf).1
+    have hwr := (WF_pushed I L v lt rt hwf).2
+    have hsl : Shaped (lt.setRoot p.2.1) vl m := (Shaped_setRoot _ _ _ _).2 hs2
+    have hsr : Shaped rt' (m+1) vr := (Shaped_setRoot _ _ _ _).2 hs3
+    have hmx : max l (m + 1) = l := by omega
+    have hd := den_pushed I L v lt rt
+    have hsz := (Shaped_size _ _ _ hsl).1
+    have hlen := den_length I (lt.setRoot p.2.1)
+    obtain ⟨j2, j3, j4, j5, j6⟩ := ih hwr hsr (by omega) (by omega)
+    obtain ⟨w1, w2⟩ := WF_rebuild I v p.1 lt rt (lt.setRoot p.2.1) (lb I rt' item f (max l (m+1)) (m+1) vr).tree hwf
+      (L.push_val0 _ _ _) (L.push_pa0 _ _ _) (by rw [j2]; exact hd) hwl j3
+    have hlv : ¬ l = vl := by omega
+    have e : lb I (.node v lt rt) item f l vl vr =
+        ⟨(lb I rt' item f (max l (m+1)) (m+1) vr).carry, (lb I rt' item f (max l (m+1)) (m+1) vr).res,
+         .node p.1 (lt.setRoot p.2.1) (lb I rt' item f (max l (m+1)) (m+1) vr).tree,
+         (if l = vl then [(vr, I.merge item v)] else []) ++ (lb I rt' item f (max l (m+1)) (m+1) vr).log⟩ := by
+      rw [lb, if_neg hc, if_neg hlm]
+    rw [e]
+    refine ⟨w2, w1, ⟨hs1, (Shaped_setRoot _ _ _ _).2 hs2, j4⟩, ?_, ?_⟩
+    · rw [if_neg hlv, List.nil_append, hd]
+      have j5' : LogOK I (den I rt') (I.val item) l (m + 1) vr (lb I rt' item f (max l (m+1)) (m+1) vr).log := by
+        rw [hmx] at j5 ⊢; exact j5
+      exact LogOK_right I _ _ _ _ _ m _ _ (by rw [hlen, hsz]; omega) (by omega) (by omega) j5'
+    · intro hn
+      have j6' := j6 hn
+      have ea : l - vl - (den I (lt.setRoot p.2.1)).length = l - (m + 1) := by rw [hlen, hsz]; omega
+      have eb : vr + 1 - vl - (den I (lt.setRoot p.2.1)).length = vr + 1 - (m + 1) := by rw [hlen, hsz]; omega
+      rw [hd, slice_append_right (den I (lt.setRoot p.2.1)) (den I rt') (l - vl) (vr + 1 - vl)
+        (by rw [hlen, hsz]; omega), ea, eb]
+      exact j6'.trans (by rw [hmx])
+
 /-! ### the leftward search (mirror image) -/
 
 /-- folding right-to-left into a carry -/
@@ -660,5 +812,152 @@ theorem lbr_spec (L : Lawful I) (f : T → Bool) (g : A → Bool) (hf : ∀ x, f
       have j5' : LogOKR I (den I lt') (I.val item) r vl (lbr I lt' item f (min r m) vl m).log := by
         rw [hmn] at j5 ⊢; exact j5
       exact LogOKR_left I _ _ _ _ _ m _ (by rw [hlen, hsz]; omega) (by omega) j5'
+
+/-- mirror image of `lb_log` -/
+theorem lbr_log (L : Lawful I) (f : T → Bool)
+    (t : Tree T) (item : T) (r vl vr : Nat) (hwf : WF I t) (hs : Shaped t vl vr) (h1 : vl ≤ r) (h2 : r ≤ vr) :
+    den I (lbr I t item f r vl vr).tree = den I t ∧ WF I (lbr I t item f r vl vr).tree ∧
+    Shaped (lbr I t item f r vl vr).tree vl vr ∧
+    LogOKR I (den I t) (I.val item) r vl (lbr I t item f r vl vr).log ∧
+    ((lbr I t item f r vl vr).res = none →
+      I.val (lbr I t item f r vl vr).carry = (slice (den I t) 0 (r + 1 - vl)).foldr I.op (I.val item)) := by
+  induction t, item, r, vl, vr using lbr.induct I f with
+  | case1 item r vl vr v next hfn =>
+    have hpn := probe_nodeR I L (.leaf v) item vl vr hwf hs
+    simp only [Shaped] at hs; subst hs
+    have : r = vl := by omega
+    subst this
+    rw [lbr, if_pos hfn]
+    refine ⟨rfl, trivial, rfl, ?_, fun h => by cases h⟩
+    intro kp hk
+    simp only [List.mem_singleton] at hk; subst hk
+    exact ⟨Nat.le_refl _, Nat.le_refl _, hpn⟩
+  | case2 item r vl vr v next hfn =>
+    have hpn := probe_nodeR I L (.leaf v) item vl vr hwf hs
+    simp only [Shaped] at hs; subst hs
+    have : r = vl := by omega
+    subst this
+    rw [lbr, if_neg hfn]
+    refine ⟨rfl, trivial, rfl, ?_, fun _ => by rw [Nat.sub_self] at hpn; exact hpn⟩
+    intro kp hk
+    simp only [List.mem_singleton] at hk; subst hk
+    exact ⟨Nat.le_refl _, Nat.le_refl _, hpn⟩
+  | case3 item r vl vr v lt rt hc =>
+    have hpn := probe_nodeR I L (.node v lt rt) item vl vr hwf hs
+    obtain ⟨rfl, hfn⟩ := hc
+    rw [lbr, if_pos ⟨rfl, hfn⟩]
+    refine ⟨rfl, hwf, hs, ?_, fun _ => by rw [Nat.sub_self] at hpn; exact hpn⟩
+    intro kp hk
+    simp only [List.mem_singleton] at hk; subst hk
+    exact ⟨Nat.le_refl _, (Shaped_size _ _ _ hs).2, hpn⟩
+  | case4 item r vl vr v lt rt hc p rt' m hrm q i hqi ih =>
+    have hpn := probe_nodeR I L (.node v lt rt) item vl vr hwf hs
+    have hvlr := (Shaped_size _ _ _ hs).2
+    obtain ⟨hs1, hs2, hs3⟩ := hs
+    have hwl := (WF_pushed I L v lt rt hwf).1
+    have hwr := (WF_pushed I L v lt rt hwf).2
+    have hsl : Shaped (lt.setRoot p.2.1) vl m := (Shaped_setRoot _ _ _ _).2 hs2
+    have hsr : Shaped rt' (m+1) vr := (Shaped_setRoot _ _ _ _).2 hs3
+    have hd := den_pushed I L v lt rt
+    have hsz := (Shaped_size _ _ _ hsl).1
+    have hlen := den_length I (lt.setRoot p.2.1)
+    obtain ⟨i2, i3, i4, i5, _⟩ := ih hwr hsr hrm h2
+    obtain ⟨w1, w2⟩ := WF_rebuild I v p.1 lt rt (lt.setRoot p.2.1) q.tree hwf
+      (L.push_val0 _ _ _) (L.push_pa0 _ _ _) (by rw [i2]; exact hd) hwl i3
+    have hqi' : (lbr I (rt.setRoot (I.push v lt.root rt.root).2.2) item f r ((vl + vr) / 2 + 1) vr).res = some i := hqi
+    have e : lbr I (.node v lt rt) item f r vl vr =
+        ⟨q.carry, some i, .node p.1 (lt.setRoot p.2.1) q.tree,
+         (if r = vr then [(vl, I.merge v item)] else []) ++ q.log⟩ := by
+      rw [lbr, if_neg hc, if_pos hrm]; simp only [hqi']; rfl
+    rw [e]
+    refine ⟨w2, w1, ⟨hs1, (Shaped_setRoot _ _ _ _).2 hs2, i4⟩, ?_, fun h => by cases h⟩
+    rw [LogOKR_append]
+    refine ⟨?_, ?_⟩
+    · by_cases hrv : r = vr
+      · subst hrv
+        rw [if_pos rfl]
+        intro kp hk
+        simp only [List.mem_singleton] at hk; subst hk
+        exact ⟨Nat.le_refl _, hvlr, hpn⟩
+      · rw [if_neg hrv]; exact LogOKR_nil I _ _ _ _
+    · rw [hd]
+      exact LogOKR_right I _ _ _ _ _ m _ (by rw [hlen, hsz]; omega) (by omega) i5
+  | case5 item r vl vr v lt rt hc p lt' rt' m hrm q hqn ih _ ih2 =>
+    have hpn := probe_nodeR I L (.node v lt rt) item vl vr hwf hs
+    have hvlr := (Shaped_size _ _ _ hs).2
+    obtain ⟨hs1, hs2, hs3⟩ := hs
+    have hwl := (WF_pushed I L v lt rt hwf).1
+    have hwr := (WF_pushed I L v lt rt hwf).2
+    have hsl : Shaped lt' vl m := (Shaped_setRoot _ _ _ _).2 hs2
+    have hsr : Shaped rt' (m+1) vr := (Shaped_setRoot _ _ _ _).2 hs3
+    have hd := den_pushed I L v lt rt
+    have hsz := (Shaped_size _ _ _ hsl).1
+    have hlen := den_length I lt'
+    obtain ⟨i2, i3, i4, i5, i6⟩ := ih hwr hsr hrm h2
+    have hmn : min r m = m := by omega
+    have hcarry : I.val q.carry = (slice (den I rt') 0 (r + 1 - (m + 1))).foldr I.op (I.val item) := i6 hqn
+    obtain ⟨j2, j3, j4, j5, j6⟩ := ih2 hwl hsl (by omega) (by omega)
+    obtain ⟨w1, w2⟩ := WF_rebuild I v p.1 lt rt (lbr I lt' q.carry f (min r m) vl m).tree q.tree hwf
+      (L.push_val0 _ _ _) (L.push_pa0 _ _ _) (by rw [i2, j2]; exact hd) j3 i3
+    have hqn' : (lbr I (rt.setRoot (I.push v lt.root rt.root).2.2) item f r ((vl + vr) / 2 + 1) vr).res = none := hqn
+    have e : lbr I (.node v lt rt) item f r vl vr =
+        ⟨(lbr I lt' q.carry f (min r m) vl m).carry, (lbr I lt' q.carry f (min r m) vl m).res,
+         .node p.1 (lbr I lt' q.carry f (min r m) vl m).tree q.tree,
+         (if r = vr then [(vl, I.merge v item)] else []) ++ (q.log ++ (lbr I lt' q.carry f (min r m) vl m).log)⟩ := by
+      rw [lbr, if_neg hc, if_pos hrm]; simp only [hqn']; rfl
+    rw [e]
+    refine ⟨w2, w1, ⟨hs1, j4, i4⟩, ?_, ?_⟩
+    · rw [LogOKR_append, LogOKR_append]
+      refine ⟨?_, ?_, ?_⟩
+      · by_cases hrv : r = vr
+        · subst hrv
+          rw [if_pos rfl]
+          intro kp hk
+          simp only [List.mem_singleton] at hk; subst hk
+          exact ⟨Nat.le_refl _, hvlr, hpn⟩
+        · rw [if_neg hrv]; exact LogOKR_nil I _ _ _ _
+      · rw [hd]
+        exact LogOKR_right I _ _ _ _ _ m _ (by rw [hlen, hsz]; omega) (by omega) i5
+      · rw [hd]
+        have j5' : LogOKR I (den I lt') (I.val q.carry) m vl (lbr I lt' q.carry f (min r m) vl m).log := by
+          rw [hmn] at j5 ⊢; exact j5
+        exact LogOKR_left_carry I _ _ _ _ _ _ m _ (by rw [hlen, hsz]; omega) (by omega) hrm hcarry j5'
+    · intro hn
+      have j6' := j6 hn
+      have ea : r + 1 - vl - (den I lt').length = r + 1 - (m + 1) := by rw [hlen, hsz]; omega
+      have eb : slice (den I lt') 0 (min r m + 1 - vl) = den I lt' := by
+        rw [hmn, show m + 1 - vl = (den I lt').length by rw [hlen, hsz]; omega, slice_all]
+      rw [hd, slice_append_mid (den I lt') (den I rt') 0 (r + 1 - vl) (by omega) (by rw [hlen, hsz]; omega),
+        List.foldr_append, ea, slice_all, ← hcarry]
+      exact j6'.trans (by rw [eb])
+  | case6 item r vl vr v lt rt hc p lt' m hrm ih =>
+    have hvlr := (Shaped_size _ _ _ hs).2
+    obtain ⟨hs1, hs2, hs3⟩ := hs
+    have hwl := (WF_pushed I L v lt rt hwf).1
+    have hwr := (WF_pushed I L v lt rt hwf).2
+    have hsl : Shaped lt' vl m := (Shaped_setRoot _ _ _ _).2 hs2
+    have hmn : min r m = r := by omega
+    have hd := den_pushed I L v lt rt
+    have hsz := (Shaped_size _ _ _ hsl).1
+    have hlen := den_length I lt'
+    obtain ⟨j2, j3, j4, j5, j6⟩ := ih hwl hsl (by omega) (by omega)
+    obtain ⟨w1, w2⟩ := WF_rebuild I v p.1 lt rt (lbr I lt' item f (min r m) vl m).tree (rt.setRoot p.2.2) hwf
+      (L.push_val0 _ _ _) (L.push_pa0 _ _ _) (by rw [j2]; exact hd) j3 hwr
+    have hrv : ¬ r = vr := by omega
+    have e : lbr I (.node v lt rt) item f r vl vr =
+        ⟨(lbr I lt' item f (min r m) vl m).carry, (lbr I lt' item f (min r m) vl m).res,
+         .node p.1 (lbr I lt' item f (min r m) vl m).tree (rt.setRoot p.2.2),
+         (if r = vr then [(vl, I.merge v item)] else []) ++ (lbr I lt' item f (min r m) vl m).log⟩ := by
+      rw [lbr, if_neg hc, if_neg hrm]
+    rw [e]
+    refine ⟨w2, w1, ⟨hs1, j4, (Shaped_setRoot _ _ _ _).2 hs3⟩, ?_, ?_⟩
+    · rw [if_neg hrv, List.nil_append, hd]
+      have j5' : LogOKR I (den I lt') (I.val item) r vl (lbr I lt' item f (min r m) vl m).log := by
+        rw [hmn] at j5 ⊢; exact j5
+      exact LogOKR_left I _ _ _ _ _ m _ (by rw [hlen, hsz]; omega) (by omega) j5'
+    · intro hn
+      have j6' := j6 hn
+      rw [hd, slice_append_left (den I lt') (den I (rt.setRoot p.2.2)) 0 (r + 1 - vl) (by rw [hlen, hsz]; omega)]
+      exact j6'.trans (by rw [hmn])
 
 end Rlib.Segtree
